@@ -43,6 +43,8 @@ def random_split_case(rng, max_windows=60, small_rate=True, allow_partial=True, 
         uc = rng.choice((None, None, 0, "mix"))
     lo, hi = A.THR_RANGE[width]
     thr = round(rng.uniform(lo, hi), rng.choice((0, 1, 3)))
+    if rng.random() < 0.08:
+        thr = rng.choice((0, 0.0))  # a falsy threshold is a perfectly good threshold (0 dB: any non-zero window is active)
     return dict(rate=rate, width=width, channels=channels, block=block, w=w, min_len=min_len, max_len=max_len,
                 max_sil=max_sil, drop=drop, strict=strict, v=v, partial=partial, uc=uc, thr=thr,
                 pcm_seed=rng.getrandbits(48), random_pcm=rng.random() < 0.15)
